@@ -76,7 +76,7 @@ mut("e7-rect-corners", ["C08"], "polygon.go",
 mut("e7-null-in-linestring", ["C07"], "linestring.go",
     "\t\t\tif value.Type != gjson.Number {\n\t\t\t\terr = errCoordinatesInvalid\n\t\t\t\treturn false\n\t\t\t}",
     "\t\t\tif value.Type != gjson.Number && value.Type != gjson.Null {\n\t\t\t\terr = errCoordinatesInvalid\n\t\t\t\treturn false\n\t\t\t}",
-    "E7.V1", note="null ordinates accepted in line strings")
+    "E8", note="null ordinates accepted in line strings")
 mut("e7-benign-guard-form", ["C07"], "linestring.go",
     "\tif len(points) < 2 {\n\t\t// Must have at least two points",
     "\tif len(points) <= 1 {\n\t\t// Must have at least two points",
@@ -137,7 +137,7 @@ mut("e11-wrap-one-sided", ["C14"], "geo/geo.go",
     "\tif minLon < -math.Pi || maxLon > math.Pi {",
     "\tif minLon < -math.Pi {",
     "E11.clamp", note="east wrap-around not clamped")
-mut("e12-containssegment-or", ["C19", "C03"], "geometry/segment.go",
+mut("e12-containssegment-or", ["C19"], "geometry/segment.go",
     "\treturn seg.Raycast(other.A).On && seg.Raycast(other.B).On",
     "\treturn seg.Raycast(other.A).On || seg.Raycast(other.B).On",
     "E12.seg", note="one endpoint on the segment suffices")
